@@ -74,6 +74,134 @@ func TestVerifC06(t *testing.T) {
 		rec.nontrivial(hashAny(sc))
 		rec.sample("integrity", 2, sessBrief(&sc))
 	}
+
+	// ---- real UDP: the recvmmsg batch loops ------------------------------------
+	schedBubbleMode.Store(false)
+	for q := 0; q < env.pickN(60, 600); q++ {
+		idx := caseIdx
+		caseIdx++
+		if !env.mine(idx) {
+			continue
+		}
+		rng := rec.seed(uint64(idx), 61)
+		cn := ciphers[q%len(ciphers)]
+		desc := map[string]any{"case": idx, "part": "real-udp-batch", "cipher": cn, "listener_path": q%2 == 1}
+		rec.beginCase(desc)
+		setCurrent(rec, desc)
+		c06RealUDPBatch(rec, desc, rng, cn, q%2 == 1)
+		rec.eval(1)
+		rec.nontrivial(hashAny(desc))
+		rec.sample("real-udp-batch", 1, desc)
+	}
+}
+
+// c06RealUDPBatch: the Linux batch read loops (recvmmsg) are only reachable with
+// real UDP sockets. A datagram failing the check is queued in the socket
+// together with valid ones BEFORE the session (or listener) starts reading, so
+// that one ReadBatch returns them all: the valid ones must still be delivered.
+func c06RealUDPBatch(rec *vrec, desc map[string]any, rng *vrng, cipherName string, listenerPath bool) {
+	spec := cipherByName(cipherName)
+	key := rng.bytes(spec.keyLen)
+	block, _ := spec.mk(key)
+	sl := newSealer(spec, key)
+	c, err := net.ListenUDP("udp4", &net.UDPAddr{IP: net.IPv4(127, 0, 0, 1)})
+	if err != nil {
+		rec.inconcl("real-udp-batch: " + err.Error())
+		return
+	}
+	defer c.Close()
+	peer, err := net.ListenUDP("udp4", &net.UDPAddr{IP: net.IPv4(127, 0, 0, 1)})
+	if err != nil {
+		rec.inconcl("real-udp-batch: " + err.Error())
+		return
+	}
+	defer peer.Close()
+	conv := rng.u32()
+	push := func(sn uint32, msg string) []byte {
+		return sl.seal(rng, encodeSeg(wseg{conv: conv, cmd: IKCP_CMD_PUSH, wnd: 32, sn: sn, data: []byte(msg)}))
+	}
+	valid0 := push(0, "hello-0")
+	var gcm cipher.AEAD
+	var ref *refCrypt
+	if spec.kind == "aead" {
+		blk, _ := aes.NewCipher(key)
+		gcm, _ = cipher.NewGCM(blk)
+	} else {
+		ref, _ = newRefCrypt(*spec, key)
+	}
+	var bads [][]byte
+	for len(bads) < 3 {
+		b, _, certain := corruptDgram(rng, spec, ref, gcm, valid0)
+		if certain {
+			bads = append(bads, b)
+		}
+	}
+	before := DefaultSnmp.Copy()
+	// queue: bad, valid sn0, bad, valid sn1, bad
+	for _, d := range [][]byte{bads[0], valid0, bads[1], push(1, "hello-1"), bads[2]} {
+		peer.WriteToUDP(d, c.LocalAddr().(*net.UDPAddr))
+	}
+	time.Sleep(30 * time.Millisecond)
+	var s *UDPSession
+	var l *Listener
+	if listenerPath {
+		l, _ = ServeConn(block, 0, 0, c)
+		defer l.Close()
+		l.SetReadDeadline(time.Now().Add(3 * time.Second))
+		s, err = l.AcceptKCP()
+	} else {
+		s, err = NewConn3(conv, peer.LocalAddr(), block, 0, 0, c)
+	}
+	read2 := func() (string, error) {
+		got := ""
+		buf := make([]byte, 100)
+		for i := 0; i < 2; i++ {
+			s.SetReadDeadline(time.Now().Add(3 * time.Second))
+			n, err := s.Read(buf)
+			if err != nil {
+				return got, err
+			}
+			got += string(buf[:n]) + ";"
+		}
+		return got, nil
+	}
+	got := ""
+	if err == nil {
+		defer s.Close()
+		got, err = read2()
+	}
+	rec.count("real_udp_batches_with_failing_datagrams", 1)
+	if err == nil && got == "hello-0;hello-1;" {
+		if d := snmpDiff(before, DefaultSnmp.Copy()); d["InCsumErrors"] == 0 && spec.kind != "aead" {
+			// (runts below the header size are not counted; at least one of the
+			// three corruptions is header-sized in practice, but not by construction)
+			rec.count("real_udp_batches_without_checksum_error_count", 1)
+		}
+		return
+	}
+	// control: the same valid segments alone. If they get through now, the loss
+	// was caused by the failing datagrams; if not, the machine or the socket
+	// stalled and nothing is concluded.
+	if s == nil {
+		for _, d := range [][]byte{push(0, "hello-0"), push(1, "hello-1")} {
+			peer.WriteToUDP(d, c.LocalAddr().(*net.UDPAddr))
+		}
+		l.SetReadDeadline(time.Now().Add(3 * time.Second))
+		if s, err = l.AcceptKCP(); err != nil {
+			rec.inconcl("real-udp-batch: no session even for the control datagrams")
+			return
+		}
+		defer s.Close()
+	} else {
+		for _, d := range [][]byte{push(0, "hello-0"), push(1, "hello-1")} {
+			peer.WriteToUDP(d, c.LocalAddr().(*net.UDPAddr))
+		}
+	}
+	if got2, err2 := read2(); err2 == nil || got2 != "" {
+		rec.violationf(desc, "C06 datagrams failing the integrity check made valid datagrams of the same receive batch disappear", "cipher %s, %s path: read %q (%v) from a batch [bad, sn0, bad, sn1, bad]; the same segments sent alone afterwards were delivered (%q)", cipherName, map[bool]string{true: "listener", false: "dialled-session"}[listenerPath], got, err, got2)
+	} else {
+		rec.inconcl("real-udp-batch: control datagrams not delivered either (stalled machine?)")
+	}
 }
 
 func runC06(t *testing.T, rec *vrec, sc *sessScenario, rng *vrng) {
